@@ -156,6 +156,12 @@ func (t *Term) SVal() int64 {
 	return t.ival.Int64()
 }
 
+var pushMemo = map[[3]int]*Term{}
+
+// nested and/or nodes with more arguments than this are kept as shared subterms instead of
+// being flattened into their parent (flattening copies argument lists and destroys sharing)
+const flattenMax = 3
+
 func Not(a *Term) *Term {
 	if a == True {
 		return False
@@ -180,7 +186,7 @@ func And(xs ...*Term) *Term {
 		if x == False {
 			return false
 		}
-		if x.op == "and" {
+		if x.op == "and" && len(x.args) <= flattenMax {
 			for _, y := range x.args {
 				if !add(y) {
 					return false
@@ -226,7 +232,7 @@ func Or(xs ...*Term) *Term {
 		if x == True {
 			return false
 		}
-		if x.op == "or" {
+		if x.op == "or" && len(x.args) <= flattenMax {
 			for _, y := range x.args {
 				if !add(y) {
 					return false
@@ -332,10 +338,16 @@ func Eq(a, b *Term) *Term {
 	}
 	// push equality with a constant through ite whose branches are constants (keeps terms small)
 	if b.IsConst() && a.op == "ite" && (a.args[1].IsConst() || a.args[2].IsConst()) {
-		return Ite(a.args[0], Eq(a.args[1], b), Eq(a.args[2], b))
+		k := [3]int{0, a.id, b.id}
+		if r, ok := pushMemo[k]; ok {
+			return r
+		}
+		r := Ite(a.args[0], Eq(a.args[1], b), Eq(a.args[2], b))
+		pushMemo[k] = r
+		return r
 	}
 	if a.IsConst() && b.op == "ite" && (b.args[1].IsConst() || b.args[2].IsConst()) {
-		return Ite(b.args[0], Eq(a, b.args[1]), Eq(a, b.args[2]))
+		return Eq(b, a)
 	}
 	if a.id > b.id {
 		a, b = b, a
@@ -511,7 +523,13 @@ symbolic:
 	}
 	// distribute add-constant over ite with a constant branch (keeps counters concrete-ish)
 	if op == "bvadd" && b.IsConst() && a.op == "ite" && (a.args[1].IsConst() || a.args[2].IsConst()) {
-		return Ite(a.args[0], BVBin(op, a.args[1], b), BVBin(op, a.args[2], b))
+		k := [3]int{20, a.id, b.id}
+		if r, ok := pushMemo[k]; ok {
+			return r
+		}
+		r := Ite(a.args[0], BVBin(op, a.args[1], b), BVBin(op, a.args[2], b))
+		pushMemo[k] = r
+		return r
 	}
 	return TS.intern(&Term{op: op, sort: a.sort, args: []*Term{a, b}})
 }
@@ -539,11 +557,49 @@ func BVCmp(op string, a, b *Term) *Term {
 	if a == b {
 		return BoolC(op == "bvule" || op == "bvsle")
 	}
+	// range reasoning for small non-negative counters (lengths, indices)
+	if w == 64 {
+		if a.IsConst() && a.ival.IsInt64() && a.ival.Int64() >= 0 {
+			if ub, ok := termUpper(b); ok && ub >= 0 {
+				av := int(a.ival.Int64())
+				if (op == "bvslt" || op == "bvult") && av >= ub {
+					return False
+				}
+				if (op == "bvsle" || op == "bvule") && av > ub {
+					return False
+				}
+			}
+		}
+		if b.IsConst() && b.ival.IsInt64() && b.ival.Int64() >= 0 {
+			if ub, ok := termUpper(a); ok && ub >= 0 && termNonNeg(a) {
+				bv := int(b.ival.Int64())
+				if (op == "bvslt" || op == "bvult") && ub < bv {
+					return True
+				}
+				if (op == "bvsle" || op == "bvule") && ub <= bv {
+					return True
+				}
+			}
+		}
+	}
+	opk := map[string]int{"bvult": 1, "bvule": 2, "bvslt": 3, "bvsle": 4}[op]
 	if a.op == "ite" && b.IsConst() && (a.args[1].IsConst() || a.args[2].IsConst()) {
-		return Ite(a.args[0], BVCmp(op, a.args[1], b), BVCmp(op, a.args[2], b))
+		k := [3]int{opk, a.id, b.id}
+		if r, ok := pushMemo[k]; ok {
+			return r
+		}
+		r := Ite(a.args[0], BVCmp(op, a.args[1], b), BVCmp(op, a.args[2], b))
+		pushMemo[k] = r
+		return r
 	}
 	if b.op == "ite" && a.IsConst() && (b.args[1].IsConst() || b.args[2].IsConst()) {
-		return Ite(b.args[0], BVCmp(op, a, b.args[1]), BVCmp(op, a, b.args[2]))
+		k := [3]int{opk + 10, a.id, b.id}
+		if r, ok := pushMemo[k]; ok {
+			return r
+		}
+		r := Ite(b.args[0], BVCmp(op, a, b.args[1]), BVCmp(op, a, b.args[2]))
+		pushMemo[k] = r
+		return r
 	}
 	return TS.intern(&Term{op: op, sort: SBool, args: []*Term{a, b}})
 }
@@ -578,7 +634,17 @@ func BVResize(a *Term, w int, signed bool) *Term {
 		return BVCBig(new(big.Int).Set(a.ival), w)
 	}
 	if a.op == "ite" && (a.args[1].IsConst() || a.args[2].IsConst()) {
-		return Ite(a.args[0], BVResize(a.args[1], w, signed), BVResize(a.args[2], w, signed))
+		sg := 0
+		if signed {
+			sg = 1
+		}
+		k := [3]int{30 + sg, a.id, w}
+		if r, ok := pushMemo[k]; ok {
+			return r
+		}
+		r := Ite(a.args[0], BVResize(a.args[1], w, signed), BVResize(a.args[2], w, signed))
+		pushMemo[k] = r
+		return r
 	}
 	if w < aw {
 		return TS.intern(&Term{op: "extract", sort: SBV(w), args: []*Term{a}, ext: [2]int{w - 1, 0}})
@@ -766,4 +832,28 @@ func (t *Term) Pretty(depth int) string {
 		parts = append(parts, a.Pretty(depth-1))
 	}
 	return "(" + op + " " + strings.Join(parts, " ") + ")"
+}
+
+// termNonNeg: syntactically non-negative (ite / + over non-negative constants).
+var nonNegMemo = map[*Term]bool{}
+
+func termNonNeg(t *Term) bool {
+	if r, ok := nonNegMemo[t]; ok {
+		return r
+	}
+	r := termNonNeg1(t)
+	nonNegMemo[t] = r
+	return r
+}
+
+func termNonNeg1(t *Term) bool {
+	switch t.op {
+	case "const":
+		return t.SVal() >= 0
+	case "ite":
+		return termNonNeg(t.args[1]) && termNonNeg(t.args[2])
+	case "bvadd":
+		return termNonNeg(t.args[0]) && termNonNeg(t.args[1])
+	}
+	return false
 }
